@@ -1,1 +1,81 @@
-fn main() { println!("ok"); }
+use dgh::report::Report;
+use std::io::Write;
+
+fn usage() -> ! {
+  eprintln!("usage: dgh run <property> [--tier quick|thorough] [--seed N] [--out file]");
+  std::process::exit(2)
+}
+
+fn main() {
+  let args: Vec<String> = std::env::args().collect();
+  if args.len() < 2 {
+    usage();
+  }
+  match args[1].as_str() {
+    "run" => {
+      if args.len() < 3 {
+        usage();
+      }
+      let prop = args[2].clone();
+      let mut tier = "quick".to_string();
+      let mut seed: u64 = 1;
+      let mut out: Option<String> = None;
+      let mut i = 3;
+      while i < args.len() {
+        match args[i].as_str() {
+          "--tier" => {
+            tier = args[i + 1].clone();
+            i += 2;
+          }
+          "--seed" => {
+            seed = args[i + 1].parse().unwrap_or(1);
+            i += 2;
+          }
+          "--out" => {
+            out = Some(args[i + 1].clone());
+            i += 2;
+          }
+          _ => usage(),
+        }
+      }
+      let start = std::time::Instant::now();
+      let report: Report = match prop.as_str() {
+        "C14" => dgh::c14::run(&tier, seed),
+        _ => {
+          eprintln!("unknown property {}", prop);
+          std::process::exit(2)
+        }
+      };
+      let mut v = report.to_json();
+      v["wall_s"] = serde_json::json!(start.elapsed().as_secs_f64());
+      v["tier"] = serde_json::json!(tier);
+      v["seed"] = serde_json::json!(seed);
+      let text = serde_json::to_string_pretty(&v).unwrap();
+      match out {
+        Some(p) => std::fs::File::create(p).unwrap().write_all(text.as_bytes()).unwrap(),
+        None => println!("{}", text),
+      }
+    }
+    "translate" => {
+      let mut repo = "/repo".to_string();
+      let mut out = "/verif/lean/DG/Tables.lean".to_string();
+      let mut i = 2;
+      while i + 1 < args.len() {
+        match args[i].as_str() {
+          "--repo" => repo = args[i + 1].clone(),
+          "--out" => out = args[i + 1].clone(),
+          _ => usage(),
+        }
+        i += 2;
+      }
+      match dgh::translate::run(&repo, &out) {
+        Ok(changed) => println!("tables {}", if changed { "regenerated (changed)" } else { "unchanged" }),
+        Err(e) => {
+          println!("table translation failed: {}", e);
+          std::process::exit(1);
+        }
+      }
+    }
+    _ => usage(),
+  }
+}
